@@ -51,6 +51,27 @@ def requests(tier, rng):
             L.append("rounding::%s::make_hint %d %d" % (lv, a0, w1))
     for a in (0, 1, 4095, 4096, 4097, 8191, 8192, Q - 1, Q - 4096, Q - 4097):
         L.append("rounding::power2round %d" % a)
+    # the polynomial-level wrappers of all six poly modules (use_hint and its in-place twin use_hint_ip, decompose,
+    # make_hint): every boundary of every rounding interval, both hint bits, low parts of either sign at high part 0 and m-1
+    from .. import pyspec as S
+    for s in ("lvl2", "lvl3", "lvl5", "ml_dsa_44", "ml_dsa_65", "ml_dsa_87"):
+        g = S.P(s).gamma2; m = (Q - 1) // (2 * g)
+        vals = []
+        for k in range(m + 1):
+            for d in (-2, -1, 0, 1, 2):
+                vals += [k * 2 * g + d, k * 2 * g + g + d]
+        vals += [0, 1, Q - 1, Q - 2, Q - g, Q - g - 1, Q - g + 1, (Q - 1) // 2]
+        vals = sorted({v for v in vals if 0 <= v < Q})
+        vals += [rng.randrange(Q) for _ in range((-len(vals)) % 256)]
+        for off in range(0, len(vals), 256):
+            A = vals[off:off + 256]
+            for H in ([0] * 256, [1] * 256, [(j + off // 256) % 2 for j in range(256)]):
+                L.append("poly::%s::use_hint %s %s" % (s, ",".join(map(str, A)), ",".join(map(str, H))))
+                L.append("poly::%s::use_hint_ip %s %s" % (s, ",".join(map(str, A)), ",".join(map(str, H))))
+            L.append("poly::%s::decompose %s" % (s, ",".join(map(str, A))))
+        a0 = [(-g, g, -g - 1, g + 1, 0, -1, 1, g - 1, -g + 1)[j % 9] for j in range(256)]
+        for a1 in ([0] * 256, [m - 1] * 256, [j % m for j in range(256)]):
+            L.append("poly::%s::make_hint %s %s" % (s, ",".join(map(str, a0)), ",".join(map(str, a1))))
     if tier == "thorough":
         for fn in ["rounding::power2round"] + ["rounding::%s::decompose" % lv for lv in G]:
             for _ in range(2000):
@@ -72,6 +93,21 @@ def violated(line, checked, release):
     if t[0] == "sweep":
         return None
     fn = t[0]
+    if fn.startswith("poly::"):
+        from .. import pyspec as S
+        parts = fn.split("::")
+        g = S.P(parts[1]).gamma2
+        if parts[2] in ("use_hint", "use_hint_ip"):
+            A = [int(x) for x in t[1].split(",")]; H = [int(x) for x in t[2].split(",")]
+            want = [S.use_hint(g, h, a) for a, h in zip(A, H)]
+            for prof, ans in (("checked", checked), ("wrapping", release)):
+                r = _vals(ans)
+                if r != want:
+                    bad = [j for j in range(256) if r is None or j >= len(r) or r[j] != want[j]][:1]
+                    j = bad[0] if bad else 0
+                    return "%s build: %s is not UseHint (FIPS 204 Alg. 40) coefficient by coefficient: at a = %d, hint %d it gives %s, the specification %d" % (
+                        prof, fn, A[j], H[j], (r[j] if r and j < len(r) else ans[:20]), want[j])
+        return None
     args = [int(x) for x in t[1:]]
     for prof, ans in (("checked", checked), ("wrapping", release)):
         r = _vals(ans)
